@@ -203,7 +203,9 @@ def build(case):
             if case.get("malformed") == "size_mismatch" and name == batched[0]:
                 nrows = B + 1
             col = rng.sample([Fraction(x, 2) for x in range(-4, 5)], nrows)
-            rows.append((name, [[x] for x in col]))
+            # a vector-valued key is batched by rows of its own width (row i is a whole (k,) value)
+            width = next((kd["k"] for kd in keys if kd["name"] == name and kd["shape"] == "(k,)"), 1)
+            rows.append((name, [[x] + [half(rng) for _ in range(width - 1)] for x in col]))
         if case.get("malformed") == "unknown_key":
             rows.append(("zz", [[half(rng)] for _ in range(B)]))
         pr["param_rows"] = rows
